@@ -393,6 +393,7 @@ func (svr *Server) Serve() error {
 	var pkt requestPacket
 	var pktType fxp
 	var pktBytes []byte
+recvLoop:
 	for {
 		pktType, pktBytes, err = svr.serverConn.recvPacket(svr.pktMgr.getNextOrderID())
 		if err != nil {
@@ -416,7 +417,9 @@ func (svr *Server) Serve() error {
 			default:
 				debug("makePacket err: %v", err)
 				svr.conn.Close() // shuts down recvPacket
-				break
+				// A plain break would only leave the switch: the malformed (or, for an
+				// unknown packet type, nil) packet must not be handed to the workers.
+				break recvLoop
 			}
 		}
 
